@@ -356,14 +356,26 @@ TS = [
     ("s1500000000", "str", "1500000000"),
 ]
 TS_PY2_EXTRA = [("2^31L", "long", 2**31), ("2^32L", "long", 2**32)]
+# integers beyond 64 bits (og-rek yields *big.Int): outside the product, section 1b
+BIG = [("2^63-1", 2**63 - 1), ("2^63", 2**63), ("2^64-1", 2**64 - 1), ("2^64+5", 2**64 + 5), ("10^30", 10**30),
+       ("-2^63", -2**63), ("-2^63-1", -2**63 - 1), ("-2^64-5", -2**64 - 5)]
 VAL = [
     ("0", "int", 0), ("1", "int", 1), ("-1", "int", -1), ("70000", "int", 70000),
     ("2^31", "int", 2**31), ("0.1", "float", 0.1), ("1e-7", "float", 1e-7), ("1e20", "float", 1e20),
     ("s1.5", "str", "1.5"),
 ]
 VAL_PY2_EXTRA = [("2^31L", "long", 2**31)]
+def _bigtyp(fl, v):
+    return "int" if fl == "py3" or -2**63 <= v < 2**63 else "long"
+
+
 TSD = {t[0]: t for t in TS + TS_PY2_EXTRA}
 VALD = {v[0]: v for v in VAL + VAL_PY2_EXTRA}
+for _fl in ("py3", "py2"):
+    for _id, _v in BIG:
+        VALD["%s:%s" % (_fl, _id)] = ("%s:%s" % (_fl, _id), _bigtyp(_fl, _v), _v)
+        if _v >= 0:
+            TSD["%s:%s" % (_fl, _id)] = ("%s:%s" % (_fl, _id), _bigtyp(_fl, _v), _v)
 
 BASE = {"py3": "str-ascii", "py2": "py2str-ascii"}
 PROTOS = {"py3": (0, 1, 2, 3, 4), "py2": (0, 1, 2)}
@@ -581,6 +593,18 @@ def build_corpus():
                 c.conn("len1-optimized", [c.add_frame(flavour, proto, [[BASE[flavour], "0", "0", "tt"]], opt=True)])
                 c.conn("len1-optimized", [c.add_frame(flavour, proto, [[BASE[flavour], "2^32", "0.1", "ll"]], opt=True)])
 
+    # -- 1b. integers at and beyond the 64-bit boundary, as value and as timestamp
+    for flavour in ("py3", "py2"):
+        for proto in PROTOS[flavour]:
+            for bid, v in BIG:
+                k = "%s:%s" % (flavour, bid)
+                for cc in ("tt", "ll"):
+                    c.conn("bigint", [c.add_frame(flavour, proto, [[BASE[flavour], "255", k, cc]])])
+                    if v >= 0:
+                        c.conn("bigint", [c.add_frame(flavour, proto, [[BASE[flavour], k, "1", cc]])])
+            k1, k2 = "%s:2^64+5" % flavour, "%s:-2^63-1" % flavour
+            c.conn("bigint", [c.add_frame(flavour, proto, [[BASE[flavour], "0", k1, "tt"], [BASE[flavour], "255", "1", "tl"], [BASE[flavour], "65536", k2, "tt"]])])
+
     # -- 2. lists of length 2 and 3 over an item alphabet
     alpha = {
         "py3": [
@@ -756,8 +780,8 @@ def tables():
         return {"py": t[1], "text": textf(t[1], t[2])}
     return {
         "names": {n[0]: {"kind": n[1], "flavour": n[2], "py": n[5], "text_hex": n[4].hex(), "len": len(n[4])} for n in NAMES},
-        "ts": {t[0]: num(t, ts_text) for t in TS + TS_PY2_EXTRA},
-        "values": {v[0]: num(v, val_text) for v in VAL + VAL_PY2_EXTRA},
+        "ts": {k: num(t, ts_text) for k, t in TSD.items()},
+        "values": {k: num(v, val_text) for k, v in VALD.items()},
         "invalid": {k: d for k, d in INVALID},
         "baseline": {"py3": ["str-ascii", "0", "0", "tt"], "py2": ["py2str-ascii", "0", "0", "tt"]},
     }
